@@ -8,4 +8,16 @@ CHECKS = {
    technique='TLA+ spec CombiScheme.tla exhaustively model-checked by TLC; every edge of the state graph replayed on the real CombiScheme; all recorded executions (edge replays, random request sequences, DimAdaptiveCombi runs) validated by TLC against CombiSchemeTrace.tla',
    text='TLC visits every sequence of update requests (refinable or not, in or outside the set) in bounded level boxes for D=1..4(5) and checks all clauses of the property in every state; the implementation is bound by replaying every edge of that graph and by TLC evaluating the same clauses on every state recorded from the real code, including longer random histories and real adaptive runs.',
    note='Trusted: TLC/SANY, the projection (active_index_set, old_index_set, getCombiScheme), bounded boxes; unbounded D/levels are not covered.'),
+ 'C03': dict(level='model_checking',
+   technique='TLA+ I-spec DimWise.tla (split, rebalance, raise_lmax, point selection for versions 2,3,6,7,8) model-checked by TLC; every (state, selection) edge replayed on the real strategy with scripted benefits; all executions validated by TLC against DimWiseTrace.tla (nesting, end points, dependence on (dimension, level) only, coefficient sum 1 at every combined-grid point, interpolation identity)',
+   text='TLC explores every bounded refinement history (single, pair and uniform selections) of the implementation-shaped model and checks the C03 clauses in every state; the real strategy is driven along those edges and along longer random histories (D=2,3, all coarsening versions, rebalancing and boundary on/off) and TLC evaluates every clause on every recorded state.',
+   note='Trusted: TLC/SANY, the projection in dimwise_common.py, numeric evaluation of the interpolation identity (tolerance 1e-8). Bounded depth (2-3 exhaustive, 6 random), lattice 2^12.'),
+ 'C04': dict(level='model_checking',
+   technique='discrete criterion InitialSpaceExact model-checked by TLC on DimWise.tla; numeric exactness of every hat of the initial space (integral and interpolation) measured on the real strategy after every step and required by DimWiseTrace.tla; per-hat equivalence criterion <=> numeric exactness checked; counterfactual replay classifies known findings',
+   text='The specification predicts exactly which hats stay exact (checked hat by hat against the real numerics on every recorded state); TLC proves the criterion invariant for rebalancing off / versions 6-8 on bounded histories and the real code is measured on the same histories and on random deeper ones. Losses caused by rebalancing or legacy versions 2/3 are known findings, identified by a counterfactual replay of the same decision history.',
+   note='Trusted: TLC/SANY, harness numerics (1e-10 relative on integrals, 1e-9 on interpolated values on a lattice twice as fine as the initial grid). Extend-split and cell strategies are covered by the C07 machinery when built; modified basis is excluded in the pinned environment (np.float).'),
+ 'C06': dict(level='model_checking',
+   technique='TLA+ I-spec DimWise.tla incl. transcription of rebalance_interval (assertions modelled as an abort state) model-checked by TLC; edge replay and random benefit scripts (ties, zeros, margins 0..1, safety factors) on the real strategy; tiling/level/binary-tree/coarsening/selection clauses evaluated by TLC on every recorded state (DimWiseTrace.tla)',
+   text='Every bounded history of the model satisfies the well-formedness invariants and never trips an assertion of the rebalancing code; the implementation is replayed along the same edges (state compared completely, including cursors) and every recorded state of scripted runs is checked by TLC against the property clauses, including that exactly the intervals reaching margin*max benefit were split.',
+   note='Trusted: TLC/SANY, projection of interval lists and levels, integer benefit scripts (float/rational agreement at the margin enforced by construction).'),
 }
